@@ -1134,7 +1134,9 @@ def judge_c16(prog, recs):
 
 PROPS['C16'] = {
     'targets': ['props/C16.vo'],
-    'theorems': [('props.C16', n) for n in ['c16_every_call', 'c16_every_history', 'c16_initial', 'c03_range_is_device', 'c19_flag_is_device', 'c16_enables_are_device']],
+    'theorems': [('props.C16', n) for n in ['c16_every_call', 'c16_every_history', 'c16_initial', 'c03_range_is_device', 'c19_flag_is_device', 'c16_enables_are_device',
+                                               'c16_i2c_call_is_reg', 'c16_i2c_every_call', 'c16_i2c_every_history', 'c16_i2c_initial']]
+                + [('proofs.I2cSim', n) for n in ['i2c_is_reg', 'step_aok', 'i2c_api_call']],
     'corr_gen': lambda api, rng, n: coherence_programs(api, rng, n),
     'corr_n': (300, 4000), 'monitor': mon_c16, 'monitor_n': (600, 20000), 'judge': judge_c16,
     'statement': 'under the stated assumption (a failed register transaction is not applied), for every history of API calls with an arbitrary '
@@ -1144,7 +1146,8 @@ PROPS['C16'] = {
                  'are outside the shadow; soft reset replaces the shadow by the reset values); consequences: the range used by get_data, the '
                  'FIFO power flag and the interrupt enables the driver compares requests with are the device\'s',
     'assumptions': ['chip-select pin failures over SPI (a write may be applied although the call reports ChipSelectPinError) are outside the '
-                    'property\'s assumption and outside this theorem; over I2C the HAL-level fault model coincides with T_reg'],
+                    'property\'s assumption and outside this theorem; over I2C the HAL-level model is PROVED to coincide with T_reg (proofs/I2cSim.v: i2c_is_reg), '
+                    'so the invariant holds at HAL level over I2C (c16_i2c_every_history)'],
 }
 
 
@@ -1630,7 +1633,7 @@ def odr_theorems():
     d = json.load(open(os.path.join(COQ, 'spec/odr_thms.json')))
     return ([('spec.OdrThms', n) for n in d['odr'] + d['keeps']] + [('spec.OdrDecide', n) for n in d['decide']]
             + [('props.C06', n) for n in ['keeps_self_test', 'step_keeps', 'c06_every_exit', 'c06_every_call', 'c06_every_history', 'c06_initial',
-                                          'c06_device_history', 'c06_reject_iff_accel', 'c06_reject_iff_interrupts']])
+                                          'c06_device_history', 'c06_device_history_i2c', 'c06_reject_iff_accel', 'c06_reject_iff_interrupts', 'c06_reject_iff_gen1', 'c06_reject_iff_gen2', 'c06_reject_iff_actchg']])
 
 
 PROPS['C06'] = {
